@@ -403,6 +403,7 @@ func (st *nodeState) begin() int {
 }
 
 type harness struct {
+	kept     []flyt.Result // ReuseKept: the result list the last batch post was given
 	sc       *Scn
 	ctx      context.Context
 	cancel   context.CancelFunc
@@ -579,6 +580,13 @@ func (h *harness) batchItems(n *NodeSpec, v int, vs *Visit) (any, string) {
 	switch n.PrepShape {
 	case "", "results":
 		out := make([]flyt.Result, len(vals))
+		if h.sc.ReuseKept && v >= 1 && len(vals) > 0 {
+			simrt.Locked(func() {
+				if cap(h.kept) >= len(vals) {
+					out = h.kept[:len(vals)] // the list an earlier post was given, recycled as a buffer
+				}
+			})
+		}
 		for i, x := range vals {
 			if r, ok := x.(flyt.Result); ok {
 				out[i] = r // an item that is an error Result
@@ -1364,6 +1372,9 @@ func (h *harness) buildFunc(n *NodeSpec) flyt.Node {
 
 func (h *harness) batchPost(n *NodeSpec) func(context.Context, *flyt.SharedStore, []flyt.Result, []flyt.Result) (flyt.Action, error) {
 	return func(ctx context.Context, s *flyt.SharedStore, items, results []flyt.Result) (flyt.Action, error) {
+		if h.sc.ReuseKept {
+			simrt.Locked(func() { h.kept = results })
+		}
 		return h.post(n, s, items, results, false)
 	}
 }
